@@ -116,9 +116,19 @@ def run_real(sc, chooser, max_steps=4000):
                 for call, a, b, c in sc.progs[k]:
                     sched.yield_point("call." + call)
                     if call == "subscribe":
-                        af.subscribe(queues[a], Event(signal="S%d" % b), queue_type="lifo" if c else "fifo")
+                        # by event or by signal number; fifo also through the default
+                        what = Event(signal="S%d" % b) if (a + b) % 3 else Event(signal="S%d" % b).signal
+                        if c:
+                            af.subscribe(queues[a], what, queue_type="lifo")
+                        elif (a + b) % 2:
+                            af.subscribe(queues[a], what, queue_type="fifo")
+                        else:
+                            af.subscribe(queues[a], what)
                     elif call == "publish":
-                        af.publish(Event(signal="S%d" % a, payload=b), priority=c)
+                        if c == 1000 and b % 2:
+                            af.publish(Event(signal="S%d" % a, payload=b))          # default priority
+                        else:
+                            af.publish(Event(signal="S%d" % a, payload=b), priority=c)
                     elif call == "start":
                         af.start()
                     elif call == "stop":
